@@ -23,6 +23,12 @@ type HashObj struct {
 
 type HashRef struct{ H *HashObj }
 
+// HashState is the serialised state of a hash object (encoding.BinaryMarshaler).
+type HashState struct {
+	Alg     int64
+	Pending []Seg
+}
+
 // HexStr is hex.EncodeToString of a byte-string value.
 type HexStr struct {
 	Bytes []*Term
@@ -456,6 +462,14 @@ func (fr *Frame) invoke(x *ssa.Call, recv Value, method string, args []Value) Va
 			return KInt{big.NewInt(32)}
 		case "BlockSize":
 			return KInt{big.NewInt(64)}
+		case "MarshalBinary":
+			// the serialised state determines (and is determined by) the bytes written so far
+			return Tuple{HashState{Alg: h.Alg, Pending: append([]Seg{}, h.Pending...)}, Nil{}}
+		case "UnmarshalBinary":
+			if st, ok := args[0].(HashState); ok && st.Alg == h.Alg {
+				h.Pending = append([]Seg{}, st.Pending...)
+				return Nil{}
+			}
 		}
 	}
 	it.event("unmodelled", fr.fn, x.Pos(), "interface call %s on %s", method, show(recv))
